@@ -19,6 +19,14 @@ type otherTyped struct{}
 
 func (*otherTyped) Error() string { return "other-typed" }
 
+// advisoryErr is a non-nil error that reports itself as "ok" (the kind of type
+// ers.Ok exists for). Handed to Join / Stack / Collector it is a supplied
+// non-nil constituent like any other.
+type advisoryErr struct{ n int }
+
+func (a *advisoryErr) Error() string { return fmt.Sprintf("advisory-%d", a.n) }
+func (a *advisoryErr) Ok() bool      { return true }
+
 // etree is a generated error expression together with what was supplied.
 type etree struct {
 	err    error   // the value built by the library
@@ -31,6 +39,7 @@ type etree struct {
 	// the value is a typed nil pointer inside a non-nil error interface: a
 	// nil input that the combinators must ignore
 	typedNil bool
+	advisory bool // the value is an *advisoryErr itself
 	extras int  // annotation / marker errors added by Wrap, Wrapf, ParsePanic
 }
 
@@ -41,7 +50,10 @@ type egen struct {
 
 func (g *egen) leaf() etree {
 	g.next++
-	switch simrt.Choose(5) {
+	switch simrt.Choose(6) {
+	case 5:
+		e := &advisoryErr{n: g.next}
+		return etree{err: e, leaves: []error{e}, desc: e.Error(), plain: true, advisory: true}
 	case 0:
 		// a nil input: the untyped nil, or the nil *Stack the library itself
 		// hands out (AsStack(nil); ers.Ok reports it as "no error")
@@ -179,6 +191,12 @@ func (g *egen) tree(depth int) etree {
 		return out
 	case 3: // ers.Wrap / Wrapf
 		p := g.tree(depth - 1)
+		if _, isAdv := p.err.(*advisoryErr); isAdv {
+			// Wrap / Wrapf are documented to return nil for an error that
+			// reports Ok(): whether that counts as "a nil input" the
+			// statement does not say, so such a value is not wrapped here
+			return p
+		}
 		out := merge("Wrap("+p.desc+")", p)
 		switch simrt.Choose(3) {
 		case 0:
@@ -396,6 +414,9 @@ func c12Trees(w *W) {
 	for _, d := range append(append([]error{}, g.derived...), t.err) {
 		if isNilErr(d) {
 			continue
+		}
+		if _, isAdv := d.(*advisoryErr); isAdv {
+			continue // says Ok() of itself: that is its author's decision
 		}
 		if ers.Ok(d) || !ers.IsError(d) {
 			w.Violate("nonnil-error-is-ok", "nonnil-error-is-ok", "ers.Ok(%v) = %v, ers.IsError = %v for a non-nil error holding %v", d, ers.Ok(d), ers.IsError(d), ers.Unwind(d))
